@@ -403,8 +403,8 @@ func (m *ServeMux) iqRouter(t xmlstream.TokenReadEncoder, start *xml.StartElemen
 	}
 	tok, err := t.Token()
 	// If we get any error return it, unless it's an EOF then don't return it if
-	// it's a result IQ (which may be empty).
-	if err != nil && (err != io.EOF || iq.Type != stanza.ResultIQ) {
+	// it's a result or error IQ (which may be empty).
+	if err != nil && (err != io.EOF || (iq.Type != stanza.ResultIQ && iq.Type != stanza.ErrorIQ)) {
 		return err
 	}
 	payloadStart, ok := tok.(xml.StartElement)
